@@ -1,7 +1,9 @@
 #!/usr/bin/env python3
 """Fold the isolated mutation-run results (.build/mutest/*.json) into seeded/<id>/meta.json and print a markdown table."""
-import glob, json, os, re
+import glob, json, os, re, sys
 ROOT = os.path.dirname(os.path.dirname(os.path.abspath(__file__)))
+sys.path.insert(0, ROOT)
+from vlib import registry
 NEEDS = {}
 runs = {}
 for f in sorted(glob.glob(os.path.join(ROOT, '.build', 'mutest', '*.json')), key=os.path.getmtime):
@@ -37,8 +39,21 @@ for d in sorted(glob.glob(os.path.join(ROOT, 'seeded', '*'))):
         meta['needs'] = ' '.join(txt.split())[:400]
     json.dump(meta, open(mp, 'w'), indent=1)
     best = [r for r in latest.values() if r['exit'] == 1]
-    what = '; '.join(sorted(set(v.split(':')[0] for r in best for v in r['violations'])))[:120]
-    rows.append('| %s | %s | %s | %s |' % (sid, meta['property'], 'caught' if best else ('not caught' if latest else 'not run'),
-                                            what or ', '.join('%s exit %d' % (r['args'].replace('--only ', '') or r['tier'], r['exit']) for r in latest.values())[:120]))
-print('| seeded change | property | result | reported by |\n|---|---|---|---|')
+    hs = sorted(set(v.split(':')[0] for r in best for v in r['violations']))
+    prop = meta['property']
+    def tiers(h):
+        if h.startswith('engine B'):
+            return 'quick+thorough'
+        q = h in registry.harnesses_for(prop, 'quick') if prop in registry.PROPS else False
+        t = h in registry.harnesses_for(prop, 'thorough') if prop in registry.PROPS else False
+        return 'quick+thorough' if q else ('thorough' if t else 'not in a tier of ' + prop)
+    others = sorted(set(p for h in hs for p in registry.PROPS if h in registry.harnesses_for(p, 'quick')))
+    meta['reported_by'] = hs
+    meta['tier_of_own_property'] = sorted(set(tiers(h) for h in hs))
+    meta['quick_checks_that_contain_a_reporting_harness'] = others
+    json.dump(meta, open(mp, 'w'), indent=1)
+    status = 'caught' if best else ('not caught' if latest else 'not run')
+    rows.append('| %s | %s | %s | %s | %s | %s |' % (sid, prop, status, '; '.join(hs)[:110] or ', '.join('%s exit %d' % (r['args'].replace('--only ', '') or r['tier'], r['exit']) for r in latest.values())[:110],
+                                                  ', '.join(meta['tier_of_own_property']) if best else '', ' '.join(others) if best else ''))
+print('| seeded change | property | result | reporting harness(es) | tier of its own property | quick checks containing such a harness |\n|---|---|---|---|---|---|')
 print('\n'.join(rows))
